@@ -1529,8 +1529,11 @@ package server
 //@   modifies all
 //@ func (*Aof).rewriteAofFiles$1
 //@   inline
+// the compaction's output file starts empty: a rewrite.aof.tmp (and its value file) left behind by a compaction that died is
+// removed before the output is opened - the writer opens with O_APPEND and would otherwise append behind the stale records
 //@ func (*Aof).loadRewriteAofFiles
 //@   trusted cut point: what a compaction copies is decided record by record in its literal (loadRewriteAofFiles$1), which is under contract
+//@   at call AofFile.Open assert C16.tmp.fresh: calls(Remove) == 2
 //@   modifies all
 
 // C09: the follower's reader fills a ring of reusable record buffers and hands each to three bounded channels. A buffer
